@@ -53,6 +53,11 @@ def known_match(known, prop, ident, witness=None):
     return None
 
 
+def lock_obls(lock, key):
+    v = lock.get(key, [])
+    return v.get('obligations', []) if isinstance(v, dict) else v
+
+
 def load_lock():
     if os.path.exists(LOCK):
         with open(LOCK) as f:
@@ -119,6 +124,7 @@ def run_check(prop, tier, seed, t0, a):
     lock = load_lock()
     timeout_ms = 10000 if tier == 'quick' else 60000
     violations, known_hits, undecided, failures = [], [], [], []
+    notes = []
     functions, obligation_list = [], []
     n_obl = n_dis = 0
     solver_s = 0.0
@@ -163,7 +169,7 @@ def run_check(prop, tier, seed, t0, a):
             payload = dict(property=prop, obligation=ident, tag=r['tag'], what=r['detail'], function=key,
                            inputs=r.get('inputs'), solver_model=r.get('model_text'), backend=r['backend'],
                            replayed=confirmed, replay_error=r.get('replay_error'))
-            in_lock = ident in lock.get(key, [])
+            in_lock = ident in lock_obls(lock, key)
             if km:
                 known_hits.append((ident, km.get('what', '')))
                 continue
@@ -197,10 +203,15 @@ def run_check(prop, tier, seed, t0, a):
                         observed=fv['violations']))
                     if not any(v[0] == ident for v in violations):
                         violations.append((ident, p, ''))
-        new_lock[key] = sorted(n for n in names if '::cover[' not in n)
-        missing = set(lock.get(key, [])) - names
+        new_lock[key] = dict(source_sha=out.get('source_hash'), obligations=sorted(n for n in names if '::cover[' not in n))
+        missing = set(lock_obls(lock, key)) - names
+        same_source = isinstance(lock.get(key), dict) and lock[key].get('source_sha') == out.get('source_hash')
         if missing and not a.update_lock:
-            failures.append(f'{key}: obligations of the lock file were not generated: {sorted(missing)[:5]}')
+            if same_source:
+                # the function text is the one the lock was made from: a smaller obligation set is a checker defect
+                failures.append(f'{key}: obligations of the lock file were not generated: {sorted(missing)[:5]}')
+            else:
+                notes.append(f'{key}: source changed; {len(missing)} locked obligations have no counterpart now: {sorted(missing)[:3]}')
     if a.update_lock:
         lock.update(new_lock)
         with open(LOCK, 'w') as f:
@@ -284,7 +295,7 @@ def run_check(prop, tier, seed, t0, a):
         bounded={k: v for k, v in (bounded or {}).items() if k not in ('violations', 'samples')} if bounded else None,
         selftest=selftest,
         known_findings_hit=[k[0] for k in known_hits],
-        undecided=undecided, checker_failures=failures,
+        undecided=undecided, checker_failures=failures, notes=notes,
     )
     ev = dict(property_id=prop, tier=tier, seed=seed, level=level, coverage=cov,
               assumptions=TRUSTED_BASE + [f'assumed callee contract: {x}' for x in sorted(assumed)] +
